@@ -140,7 +140,14 @@ func HarnessC07TLS() {
 	// advertised AUTH mechanisms: a symbolic subset
 	var mechs string
 	for _, mname := range []string{"PLAIN", "LOGIN", "CRAM-MD5", "XOAUTH2", "SCRAM-SHA-1", "SCRAM-SHA-256", "SCRAM-SHA-1-PLUS", "SCRAM-SHA-256-PLUS"} {
-		if svParam("allmechs", 1) == 1 || svPick("adv-"+mname, 2) == 1 {
+		adv := true
+		if at == SMTPAuthAutoDiscover && (mname == "PLAIN" || mname == "LOGIN" || mname == "CRAM-MD5" || mname == "SCRAM-SHA-256") {
+			// for auto-discovery the advertised list decides: every subset of the four
+			adv = svPick("adv-"+mname, 2) == 1
+		} else if at == SMTPAuthAutoDiscover {
+			adv = false
+		}
+		if adv {
 			mechs += " " + mname
 		}
 	}
@@ -242,9 +249,22 @@ func HarnessC07TLS() {
 		if svTainted(l) {
 			svReach("secret-in-cleartext")
 			// the property names PLAIN and LOGIN passwords (XOAUTH2 tokens and CRAM/SCRAM proofs are not part of it)
-			secretRevealing := at == SMTPAuthPlain || at == SMTPAuthPlainNoEnc || at == SMTPAuthLogin || at == SMTPAuthLoginNoEnc || at == SMTPAuthAutoDiscover
+			secretRevealing := at == SMTPAuthPlain || at == SMTPAuthPlainNoEnc || at == SMTPAuthLogin || at == SMTPAuthLoginNoEnc // auto-discovery: see the dedicated assertion below
 			if secretRevealing && at != SMTPAuthCustom {
 				svAssert(noenc || localhost, tag+"C07 password sent in cleartext without a *-NOENC type or a localhost server")
+			}
+		}
+	}
+	// auto-discovery: a password-revealing mechanism must never be selected on an
+	// unencrypted connection (no localhost exception in this clause)
+	if at == SMTPAuthAutoDiscover {
+		for _, ch := range s.clear {
+			if len(ch) >= 10 && !svTainted(ch[:10]) {
+				l := string(ch[:10])
+				svAssert(l != "AUTH PLAIN" && l != "AUTH LOGIN", tag+"C07 auto-discovery selected a password-revealing mechanism on an unencrypted connection")
+			}
+			if len(ch) >= 12 && !svTainted(ch[:12]) {
+				svAssert(string(ch[:12]) != "AUTH XOAUTH2", tag+"C07 auto-discovery selected a password-revealing mechanism on an unencrypted connection")
 			}
 		}
 	}
